@@ -289,9 +289,11 @@ def protected_from_dump(dump):
         out[r['uid']] = {'uid': r['uid'], 'object_type': r['object_type'], 'owner': r['owner'],
                          'operation_policy_name': r['operation_policy_name'], 'initial_date': r['initial_date']}
     for r in dump.get('crypto_objects', []):
-        out[r['uid']].update({'state': r['state'], 'cryptographic_usage_mask': r['cryptographic_usage_mask']})
+        if r['uid'] in out:      # Destroy leaves orphaned child rows behind
+            out[r['uid']].update({'state': r['state'], 'cryptographic_usage_mask': r['cryptographic_usage_mask']})
     for r in dump.get('keys', []):
-        out[r['uid']].update({'cryptographic_algorithm': r['cryptographic_algorithm'], 'cryptographic_length': r['cryptographic_length']})
+        if r['uid'] in out:
+            out[r['uid']].update({'cryptographic_algorithm': r['cryptographic_algorithm'], 'cryptographic_length': r['cryptographic_length']})
     return out
 
 
@@ -505,13 +507,27 @@ def oracle_step(ctx, hist, k, st, ver, status_ok, reason, pre, post, pre_dump, p
 
 
 # ---------------------------------------------------------------------- running one history
-class Outcome:
-    pass
+_TEMPLATE = {}
+_COUNTER = [0]
+
+
+def fresh_engine(workdir):
+    """A real KmipEngine on its own SQLite file; the empty schema is created once and copied (DDL is the slow part)."""
+    import os
+    key = str(workdir)
+    if key not in _TEMPLATE:
+        e = kdrv.Engine(workdir=workdir)
+        e.engine._data_store.dispose()
+        _TEMPLATE[key] = e.path
+    _COUNTER[0] += 1
+    path = os.path.join(key, 'h%06d.db' % _COUNTER[0])
+    shutil.copyfile(_TEMPLATE[key], path)
+    return kdrv.Engine(path=path)
 
 
 def run_history(ctx, hist, workdir, check=True):
     """Execute an abstract history on a fresh real engine.  Returns (coq_case or None, meta)."""
-    eng = kdrv.Engine(workdir=workdir)
+    eng = fresh_engine(workdir)
     try:
         for spec in hist['objects']:
             make_object(eng, spec)
@@ -537,17 +553,24 @@ def run_history(ctx, hist, workdir, check=True):
                 it = r['items'][0]
                 okk, reason = kdrv.ok(it), it['reason']
             post_dump = eng.dump()
-            post, pviews = observe(eng, post_dump)
+            same = (post_dump == dump)
+            if same:     # GetAttributes is a function of the database: nothing to re-read
+                post, pviews = pre, views
+            else:
+                post, pviews = observe(eng, post_dump)
             meta['results'].append('SUCCESS' if okk else reason)
             ctx.count('%s.%s.%s' % (st['form'], '2.0' if ver >= V2 else '1.x', 'SUCCESS' if okk else reason))
             if check:
                 meta['violations'] += oracle_step(ctx, hist, k, st, ver, okk, reason, pre, post, dump, post_dump, it)
             uid = st['uid']
-            steps_coq.append('(KAttr (%s, %s) %s %s %s %s %s %s)' % (
-                cp.z(ver[0]), cp.z(ver[1]), cp.string(st['user']),
-                cp.option(int(uid) if uid is not None else None, cp.z), coq_req(st),
-                cp.string('' if okk else reason), coq_store(post), coq_views(pviews)))
-            pre, dump = post, post_dump
+            head = '(%s, %s) %s %s %s %s' % (cp.z(ver[0]), cp.z(ver[1]), cp.string(st['user']),
+                                           cp.option(int(uid) if uid is not None else None, cp.z), coq_req(st),
+                                           cp.string('' if okk else reason))
+            if same:
+                steps_coq.append('(KAttrSame %s)' % head)
+            else:
+                steps_coq.append('(KAttr %s %s %s)' % (head, coq_store(post), coq_views(pviews)))
+            pre, dump, views = post, post_dump, pviews
         return '(%s, %s)' % (store0, cp.lst(steps_coq, lambda x: x)), meta
     finally:
         eng.close()
@@ -651,7 +674,7 @@ def random_history(rng, names, n_steps):
     # a light simulation of the collections to aim indices and current values at existing instances
     sim = {str(i + 1): {'names': list(o['names']), 'groups': list(o['groups']), 'asi': [list(a) for a in o['asi']],
                         'sens': bool(o['sens']), 'owner': o['user'], 'policy': 'default', 'mask': o['mask'], 'alg': None, 'len': None,
-                        'state': None, 'type': 0, 'init': 0} for i, o in enumerate(objs)}
+                        'state': None, 'type': TYPES[o['type']].value, 'init': 1600000000} for i, o in enumerate(objs)}
     steps = []
     for _ in range(n_steps):
         p = rng.random()
@@ -746,7 +769,7 @@ def batch_frame_oracle(ctx, rng, workdir, rounds):
     the failed item must leave no trace in what the later commit writes."""
     n = 0
     for _ in range(rounds):
-        eng = kdrv.Engine(workdir=workdir)
+        eng = fresh_engine(workdir)
         try:
             spec = base_objects(rng, rng.choice(list(TYPES)))
             for s in spec:
